@@ -26,7 +26,9 @@ TInit == /\ l = 1 /\ pc = "idle" /\ run = 0 /\ place = "" /\ bad = {}
          /\ f = [editable |-> FALSE] /\ i = 0 /\ verdict = "none" /\ reason = "none"
 
 \* what the harness counted on the parsed table agrees with Build(f) as the code reads it
-MeasuredAsBuilt(g, m) == m.tr = g.rows /\ m.maxtd = CodeCols(g) - (IF g.nested /\ HasTd(g) THEN 1 ELSE 0) /\ m.td = CodeCells(g)
+\* (the harness counts the cells of the tested table only, the nested table's own cell is not among them)
+PlainCols(g) == LET t == Build(g) IN Max({TdIn(t[r]) : r \in 1..g.rows})
+MeasuredAsBuilt(g, m) == m.tr = g.rows /\ m.maxtd = PlainCols(g) /\ m.td = CodeCells(g)
 
 Call == /\ IsEvent("Call")
         /\ pc \in {"idle", "returned", "crashed"}
